@@ -3,9 +3,12 @@ import BsVerif.Lemmas.Tracer
 # C09 — all-stop and exactly-once reporting for every thread interleaving
 
 Theorems about the tracer machine of `Model/Tracer.lean` (an acceptor of the stream of kernel calls with their
-answers).  "For every stream" below means: for EVERY list of calls and answers, well-formed or not, admitted by a
-real kernel or not — the machine's bookkeeping does not depend on the kernel behaving.  Statements that need the
-kernel's rules say so and name them.
+answers; it mirrors `resume`, `group_stop_interrupt`, `apply_new_status`, `single_step`, `TraceeCtl` and
+`step_over_breakpoint`).  "For every stream" below means: for EVERY list of calls and answers, well-formed or not,
+admitted by a real kernel or not — none of these statements depends on the kernel behaving.
+What the statements do NOT say: that a thread the tracer marks stopped is stopped in the kernel (that is the
+kernel's ptrace contract: a reported stop lasts until the tracer resumes the thread; it is sampled by the oracle
+through /proc on every run, not proved).
 -/
 namespace BsVerif.Tracer
 
@@ -30,5 +33,74 @@ example : WF { rows := [⟨0, 1, .stop⟩, ⟨7, 2, .running⟩], next := 3 } :=
   refine ⟨?_, ?_⟩
   · simp
   · intro r hr; simp at hr; rcases hr with rfl | rfl <;> simp
+
+/-! ## All-stop, tracer side -/
+
+/-- Only `cont_stopped(_ex)` resumes: for every control state and every call with every answer — unless the call is a
+successful `PTRACE_CONT` accepted inside `cont_stopped(_ex)` at the head of the `resume` loop — the set of threads the
+tracer marks running does not grow.  In particular nothing inside the group stop, inside `apply_new_status`
+(clone / exit / signal / breakpoint events), inside `single_step` or at the prompt marks a thread running. -/
+theorem C09_only_cont_stopped_marks_running (s : St) (e : Ev) (h : ¬ isResumeCont s e) :
+    ∀ t, t ∈ runningIds (step s e).tbl → t ∈ runningIds s.tbl :=
+  (step_mreach s e h).running_subset
+
+/-- At the prompt the tracer issues no call: any call observed there is rejected and the table is untouched
+("stays stopped until the user resumes", tracer side). -/
+theorem C09_prompt_is_quiescent (s : St) (e : Ev) (h : s.aw = .idle) :
+    (step s e).tbl = s.tbl ∧ ∃ w, (step s e).aw = .dead w := by
+  simp [step, h, die]
+
+/-- Coverage argument of `group_stop_interrupt`, for every table: (1) at the start of a round every thread marked
+running is on the snapshot; (2) coverage survives every operation that does not resume (all of the group stop's and
+`apply_new_status`'s, by `C09_only_cont_stopped_marks_running`); (3) interrupting `t` moves it from the list to
+"current"; (4) ESRCH marks it stopped and drops it; (5) finishing the current tracee (`if !is_stopped {set_stop}`) drops
+it; (6) when the round finds no running tracee left on its list, NO thread is marked running. -/
+theorem C09_group_stop_coverage :
+    (∀ T : Table, Cov T T.keys) ∧
+    (∀ (A B : Table) (acc : List Tid), MReach A B → Cov A acc → Cov B acc) ∧
+    (∀ (T : Table) (todo : List Tid) (t : Tid), Cov T todo → Cov T (t :: todo.erase t)) ∧
+    (∀ (T : Table) (todo : List Tid) (t : Tid), Cov T todo → Cov (T.setSt t .stop) (todo.erase t)) ∧
+    (∀ (T : Table) (todo : List Tid) (cur : Tid), Cov T (cur :: todo) → Cov (T.finish cur) todo) ∧
+    (∀ (s : St) (todo : List Tid), Cov s.tbl todo → gsCands s todo = [] → runningIds s.tbl = []) :=
+  ⟨cov_keys, fun _ _ _ h c => cov_mreach h c, fun _ _ t c => cov_intr_ok t c, fun _ _ t c => cov_setStop_erase t c,
+   fun _ _ cur c => cov_finish cur c, cov_cands_empty⟩
+
+/-- The second round of the group stop is a no-op whenever the first left nobody marked running: a complete pass
+over ANY list issues no call, opens the latch and returns (so "2 rounds → 1" is behaviour-preserving in the model). -/
+theorem C09_second_round_noop (n : Nat) (s : St) (init : Option Tid) (todo : List Tid)
+    (h : runningIds s.tbl = []) :
+    unwind (n + 1) s (.pick init 1 todo) = unwind n { s with latch := false } .gsDone := by
+  have hc : gsCands s todo = [] := by
+    apply List.filter_eq_nil_iff.mpr
+    intro t _ hr
+    have := isRunning_iff.mp hr
+    rw [h] at this
+    exact absurd this List.not_mem_nil
+  simp [unwind, hc]
+
+/-- The full end-to-end statement (tracer side of all-stop): whenever a command returns to the prompt with a
+breakpoint or signal stop, no thread is marked running.  Its inductive steps are `C09_group_stop_coverage` and
+`C09_only_cont_stopped_marks_running`; the composition over the control stack of the machine is NOT mechanised in
+this revision (no counterexample is known; the correspondence run compares the table at every stop). -/
+def C09_all_marked_stopped_full : Prop :=
+  ∀ (s : St) (es : List Ev), s.aw = .idle → runningIds s.tbl = [] → s.latch = false →
+    (run (cmdContinue s) es).aw = .idle →
+    (∀ c, (run (cmdContinue s) es).last ≠ some (.exit c)) →
+    runningIds (run (cmdContinue s) es).tbl = []
+
+/-! ## Exactly once: the pc rewind and the lifted breakpoint -/
+
+/-- Every accepted program-counter rewrite is the rewind of a breakpoint trap by exactly one byte onto an enabled
+user breakpoint whose INT3 is in place (not the one currently lifted by step-over): the thread will trap there again
+when resumed — whether the hit is reported (it arrived through `resume`'s `waitpid(-1)`) or absorbed by a group stop. -/
+theorem C09_rewind_exact (s : St) (t new old : Nat) (r : Ans)
+    (h : ∀ w, (step s (.setpc t new old r)).aw ≠ .dead w) :
+    new + 1 = old ∧ hasBp s new = true ∧ s.lifted ≠ some new ∧ r = .ok := by
+  unfold step at h
+  split at h <;> simp_all [die]
+  all_goals (split at h <;> simp_all [die])
+  all_goals (split at h <;> simp_all [die])
+  all_goals (split at h <;> simp_all [die])
+  all_goals (split at h <;> simp_all [die])
 
 end BsVerif.Tracer
